@@ -3,11 +3,15 @@ package inmemory
 import (
 	"bytes"
 	"io"
+	"sync"
 
 	"github.com/jdillenkofer/pithos/internal/cache/persistor"
 )
 
 type inMemoryCachePersistor struct {
+	// mu guards keyToCacheEntryMap: the cache calls the persistor from
+	// several goroutines without holding its own lock.
+	mu                 sync.RWMutex
 	keyToCacheEntryMap map[string][]byte
 }
 
@@ -22,12 +26,16 @@ func (cs *inMemoryCachePersistor) Store(key string, reader io.Reader) (int64, er
 	if err != nil {
 		return 0, err
 	}
+	cs.mu.Lock()
 	cs.keyToCacheEntryMap[key] = val
+	cs.mu.Unlock()
 	return int64(len(val)), nil
 }
 
 func (cs *inMemoryCachePersistor) Get(key string) (io.ReadCloser, error) {
+	cs.mu.RLock()
 	val, ok := cs.keyToCacheEntryMap[key]
+	cs.mu.RUnlock()
 	if !ok {
 		return nil, persistor.ErrCacheMiss
 	}
@@ -35,11 +43,15 @@ func (cs *inMemoryCachePersistor) Get(key string) (io.ReadCloser, error) {
 }
 
 func (cs *inMemoryCachePersistor) Remove(key string) error {
+	cs.mu.Lock()
 	delete(cs.keyToCacheEntryMap, key)
+	cs.mu.Unlock()
 	return nil
 }
 
 func (cs *inMemoryCachePersistor) RemoveAll() error {
+	cs.mu.Lock()
+	defer cs.mu.Unlock()
 	for key := range cs.keyToCacheEntryMap {
 		delete(cs.keyToCacheEntryMap, key)
 	}
